@@ -121,12 +121,13 @@ class Path:
 
 
 class Walker:
-    def __init__(self, body, max_paths=20000, unroll=1, on_call=None):
+    def __init__(self, body, max_paths=20000, unroll=1, on_call=None, init_env=None):
         self.body = body if isinstance(body, Body) else Body(body)
         self.max_paths = max_paths
         self.unroll = unroll
         self.paths = []
         self.on_call = on_call
+        self.init_env = init_env or {}
 
     # -- operands -----------------------------------------------------------
     def const_term(self, o):
@@ -245,7 +246,7 @@ class Walker:
 
     # -- walking ------------------------------------------------------------
     def run(self):
-        st = {"env": {}, "mem": {}, "cons": [], "events": [], "visits": {}, "blocks": [], "ncall": 0}
+        st = {"env": dict(self.init_env), "mem": {}, "cons": [], "events": [], "visits": {}, "blocks": [], "ncall": 0}
         stack = [(0, st)]
         while stack:
             bid, st = stack.pop()
